@@ -347,12 +347,22 @@ func runEVT(w *World, f *Func, r evtRule) []evtFinding {
 			})
 			if vs, ok := n.(*ast.ValueSpec); ok {
 				states = constBoolAssign(ef, info, states, vs)
+				if r.prim != nil {
+					if evs := r.prim(vs); len(evs) > 0 {
+						states = apply(states, evs, vs)
+					}
+				}
 			}
 			if ds, ok := n.(*ast.DeclStmt); ok {
 				if gd, ok := ds.Decl.(*ast.GenDecl); ok {
 					for _, sp := range gd.Specs {
 						if vs, ok := sp.(*ast.ValueSpec); ok {
 							states = constBoolAssign(ef, info, states, vs)
+							if r.prim != nil {
+								if evs := r.prim(vs); len(evs) > 0 {
+									states = apply(states, evs, vs)
+								}
+							}
 						}
 					}
 				}
